@@ -8,11 +8,14 @@
          stops on one of the two documented consensus-failure panics of enterPrecommit.
    All statements are over arbitrary states of the model (no samples). *)
 From Coq Require Import List ZArith NArith Bool Lia.
-From TM Require Import C02.Model C02.Setters C02.ProofsVoteSet C02.ProofsHVS C02.ProofsOrder C03.Commit.
+From TM Require Import C02.Model C02.Setters C02.ProofsVoteSet C02.ProofsHVS C02.ProofsOrder C02.ProofsLock C03.Commit.
 Import ListNotations.
 Open Scope Z_scope.
 
 Ltac cs := autorewrite with cs in *.
+
+Lemma option_eq_dec_bhash (a b : option N) : {a = b} + {a <> b}.
+Proof. decide equality. apply N.eq_dec. Qed.
 
 (* ---------------------------------------------------------------- POLInfo finds a known polka *)
 
@@ -46,23 +49,52 @@ Definition prevote_target (s : cstate) : blockid :=
             end
   end.
 
-Lemma do_prevote_eq s :
-  do_prevote E s = (s, if is_validator E then [OSignVote PREVOTE (cs_height s) (cs_round s) (prevote_target s)] else []).
+Lemma do_prevote_unfixed_eq s :
+  do_prevote_unfixed E s = (s, if is_validator E then [OSignVote PREVOTE (cs_height s) (cs_round s) (prevote_target s)] else []).
 Proof.
-  unfold do_prevote, prevote_target, sign_add_vote.
+  unfold do_prevote_unfixed, prevote_target, sign_add_vote.
   destruct (cs_lblock s); [destruct (is_validator E); reflexivity|].
   destruct (cs_pblock s) as [pb|]; [destruct (b_valid pb)|]; destruct (is_validator E); reflexivity.
 Qed.
 
+Lemma do_prevote_eq r s :
+  do_prevote E r s =
+  (unlock_known r s,
+   if is_validator E then [OSignVote PREVOTE (cs_height s) (cs_round s) (prevote_target (unlock_known r s))] else []).
+Proof. unfold do_prevote. rewrite do_prevote_unfixed_eq. autorewrite with cs. reflexivity. Qed.
+
 Lemma enter_prevote_eq h r s :
   cs_halted s = false -> cs_height s = h -> cs_round s = r -> step_rank (cs_step s) < 4 ->
   enter_prevote E h r s =
-  (set_rs r SPrevote s, if is_validator E then [OSignVote PREVOTE h r (prevote_target s)] else []).
+  (set_rs r SPrevote (unlock_known r s),
+   if is_validator E then [OSignVote PREVOTE h r (prevote_target (unlock_known r s))] else []).
 Proof.
   intros Hh H1 H2 H3. unfold enter_prevote, step_le. rewrite H1, H2, !Z.eqb_refl, Z.ltb_irrefl. cbn [negb orb andb step_rank].
   replace (4 <=? step_rank (cs_step s)) with false by (symmetry; apply Z.leb_gt; exact H3).
-  unfold seq. rewrite do_prevote_eq, Hh, H1, H2. unfold modify. rewrite app_nil_r. reflexivity.
+  unfold seq. rewrite do_prevote_eq. autorewrite with cs. rewrite Hh, H1, H2. unfold modify. rewrite app_nil_r. reflexivity.
 Qed.
+
+(* ---- the unlock rule of defaultDoPrevote: when it fires, and what it leaves *)
+
+Definition unlock_fires (r : Z) (s : cstate) : bool :=
+  match cs_lblock s with
+  | Some lb => later_polka_other (cs_votes s) lb (cs_lround s) r (S (Z.to_nat (r - cs_lround s)))
+  | None => false
+  end.
+
+Lemma unlock_known_lock r s :
+  cs_lblock (unlock_known r s) = (if unlock_fires r s then None else cs_lblock s) /\
+  cs_lparts (unlock_known r s) = (if unlock_fires r s then None else cs_lparts s) /\
+  cs_lround (unlock_known r s) = (if unlock_fires r s then -1 else cs_lround s).
+Proof.
+  unfold unlock_known, unlock_fires. destruct (cs_lblock s) eqn:El; [|rewrite El; auto].
+  destruct (later_polka_other _ _ _ _ _); autorewrite with cs; rewrite ?El; auto.
+Qed.
+
+Lemma unlock_fires_ext r s s' :
+  cs_lblock s' = cs_lblock s -> cs_lround s' = cs_lround s -> cs_votes s' = cs_votes s ->
+  unlock_fires r s' = unlock_fires r s.
+Proof. intros A B C. unfold unlock_fires. rewrite A, B, C. reflexivity. Qed.
 
 (* ---------------------------------------------------------------- enterPrecommit *)
 
@@ -325,8 +357,9 @@ Theorem progress_prevote s p b s1 o1 s2 o2 :
   good_proposal s p b ->
   handle E s (IProposal p) = (s1, o1) ->
   handle E s1 (IPart (cs_height s) (snd (pr_bid p)) 0%N (Some b)) = (s2, o2) ->
-  let target := match cs_lblock s with
-                | Some lb => block_id_of lb (cs_lparts s)       (* locked: the locked block *)
+  let u := unlock_known (cs_round s) s in       (* the unlock rule of the prevote step, applied *)
+  let target := match cs_lblock u with
+                | Some lb => block_id_of lb (cs_lparts u)       (* still locked: the locked block *)
                 | None => Some (pr_bid p)                        (* unlocked: the proposal *)
                 end in
   o1 = [] /\
@@ -335,9 +368,9 @@ Theorem progress_prevote s p b s1 o1 s2 o2 :
     (o_maj23 (prevotes (cs_votes s) (cs_round s)) = None ->
        rest = [] /\ cs_halted s2 = false /\ cs_height s2 = cs_height s /\ cs_round s2 = cs_round s /\
        cs_step s2 = SPrevote /\ cs_proposal s2 = Some p /\ cs_pblock s2 = Some b /\
-       cs_pparts s2 = Some (one_part (snd (pr_bid p))) /\ cs_scheduled s2 = cs_scheduled s /\ same_locks s s2).
+       cs_pparts s2 = Some (one_part (snd (pr_bid p))) /\ cs_scheduled s2 = cs_scheduled s /\ same_locks u s2).
 Proof.
-  intros Hh Hst Hp Hpp G E1 E2 target.
+  intros Hh Hst Hp Hpp G E1 E2 u target.
   pose proof G as (G1 & G2 & G3 & G4 & G5 & G6 & G7 & G8 & G9).
   unfold handle in E1. rewrite Hh in E1. rewrite (set_proposal_accepts s p b Hp G) in E1.
   injection E1 as <- <-. split; [reflexivity|].
@@ -373,16 +406,26 @@ Proof.
   replace (step_rank (cs_step s) <=? step_rank SPropose) with true in E2 by (symmetry; apply Z.leb_le; cbn; lia).
   cbn [andb] in E2. rewrite B3 in E2.
   unfold seq in E2. rewrite enter_prevote_eq in E2 by (auto; rewrite B4; lia).
-  replace (cs_halted (set_rs (cs_round s) SPrevote sv)) with false in E2 by (cs; auto).
-  assert (T : prevote_target sv = target).
-  { unfold prevote_target, target. rewrite B8, B9, B6, B7, G8. destruct (cs_lblock s); [reflexivity|].
-    unfold block_id_of. rewrite <- G6. destruct (pr_bid p) as [x y]; reflexivity. }
+  replace (cs_halted (set_rs (cs_round s) SPrevote (unlock_known (cs_round s) sv))) with false in E2 by (cs; auto).
+  assert (Lr : cs_lround sv = cs_lround s).
+  { subst sv. destruct maj as [[[hh pp]|]|]; try congruence.
+    destruct ((cs_vround s0 <? cs_round s) && hashes_to (cs_pblock s0) hh); cs; congruence. }
+  assert (Fx : unlock_fires (cs_round s) sv = unlock_fires (cs_round s) s) by (apply unlock_fires_ext; assumption).
+  destruct (unlock_known_lock (cs_round s) sv) as (U1 & U2 & U3).
+  destruct (unlock_known_lock (cs_round s) s) as (V1 & V2 & V3).
+  rewrite Fx in U1, U2, U3. rewrite B8 in U1. rewrite B9 in U2. rewrite Lr in U3.
+  assert (T : prevote_target (unlock_known (cs_round s) sv) = target).
+  { unfold prevote_target, target, u. rewrite U1, U2, V1, V2. cs. rewrite B6, B7, G8.
+    assert (Eb : block_id_of b (Some (one_part ph)) = Some (pr_bid p))
+      by (unfold block_id_of; cbn; rewrite <- G6; unfold ph; destruct (pr_bid p) as [x y]; reflexivity).
+    destruct (unlock_fires (cs_round s) s); [exact Eb|]. destruct (cs_lblock s); [reflexivity | exact Eb]. }
   rewrite T in E2.
   destruct maj as [pk|] eqn:Em.
-  - destruct (enter_precommit E (cs_height s) (cs_round (set_rs (cs_round s) SPrevote sv)) (set_rs (cs_round s) SPrevote sv)) as [s3 o3].
+  - match type of E2 with context [enter_precommit E ?a ?b0 ?c] => destruct (enter_precommit E a b0 c) as [s3 o3] end.
     injection E2 as <- <-. exists o3. split; [reflexivity|]. intro; discriminate.
-  - injection E2 as <- <-. exists []. split; [reflexivity|]. intros _. rewrite (B11 eq_refl).
-    cs. repeat split; auto; unfold same_locks in *; cs; tauto.
+  - injection E2 as <- <-. exists []. split; [reflexivity|]. intros _.
+    cs. rewrite (B11 eq_refl) in *. repeat split; auto; try congruence.
+    all: unfold u; cs; rewrite ?U1, ?U2, ?U3, ?V1, ?V2, ?V3; congruence.
 Qed.
 (* ---------------------------------------------------------------- vote bookkeeping helpers *)
 
@@ -675,6 +718,54 @@ Proof.
     pose proof (seq_out_first (enter_commit E hh rr) g s1 _ D0) as D;
     destruct (seq (enter_commit E hh rr) g s1) as [sa oa] end.
   cbn [snd] in D. injection Eq as <- <-. apply in_errs_app. rewrite H2. exact D.
+Qed.
+
+(* ---------------------------------------------------------------- the prevote step applies the unlock rule
+   (the repair of finding F70): after enterPrevote no polka the node holds for a round in
+   (LockedRound, round] is for something else than its locked block — "settled" *)
+
+Lemma later_polka_other_complete hv lb lr : forall fuel r r' polka,
+  lr < r' <= r -> (Z.to_nat (r - lr) <= fuel)%nat ->
+  o_maj23 (prevotes hv r') = Some polka -> bhash polka <> Some (b_hash lb) ->
+  later_polka_other hv lb lr r fuel = true.
+Proof.
+  induction fuel as [|f IH]; intros r r' polka Hr Hf Hm Hne; [lia|].
+  cbn [later_polka_other]. replace (r <=? lr) with false by (symmetry; apply Z.leb_gt; lia).
+  assert (Other : negb ((match polka with Some _ => true | None => false end) &&
+                        hashes_to (Some lb) (match polka with Some (h, _) => h | None => 0%N end)) = true).
+  { destruct polka as [[h ph]|]; [|reflexivity]. cbn. apply negb_true_iff, N.eqb_neq. cbn in Hne. congruence. }
+  destruct (Z.eq_dec r r') as [->|Hn].
+  - rewrite Hm, Other. reflexivity.
+  - assert (Rec : later_polka_other hv lb lr (r - 1) f = true) by (apply (IH (r - 1) r' polka); try assumption; lia).
+    destruct (o_maj23 (prevotes hv r)) as [pk|]; [|exact Rec].
+    match goal with |- (if ?c then _ else _) = _ => destruct c end; [reflexivity | exact Rec].
+Qed.
+
+Definition settled_at (r : Z) (s : cstate) : Prop :=
+  forall lb, cs_lblock s = Some lb ->
+  forall r' polka, cs_lround s < r' <= r -> o_maj23 (prevotes (cs_votes s) r') = Some polka ->
+                   bhash polka = Some (b_hash lb).
+
+Lemma unlock_known_settled r s : settled_at r (unlock_known r s).
+Proof.
+  intros lb Hl r' polka Hr Hm. destruct (unlock_known_lock r s) as (U1 & U2 & U3). autorewrite with cs in Hm.
+  unfold unlock_fires in *. destruct (cs_lblock s) as [lb0|] eqn:El; [|rewrite Hl in U1; discriminate].
+  destruct (later_polka_other (cs_votes s) lb0 (cs_lround s) r (S (Z.to_nat (r - cs_lround s)))) eqn:Lp;
+    [rewrite Hl in U1; discriminate|].
+  rewrite Hl in U1. injection U1 as ->. rewrite U3 in Hr.
+  destruct (option_eq_dec_bhash (bhash polka) (Some (b_hash lb0))) as [e|n]; [exact e|].
+  assert (Fu : (Z.to_nat (r - cs_lround s) <= S (Z.to_nat (r - cs_lround s)))%nat) by lia.
+  rewrite (later_polka_other_complete (cs_votes s) lb0 (cs_lround s) _ r r' polka Hr Fu Hm n) in Lp. discriminate.
+Qed.
+
+Theorem prevote_applies_unlock_rule h r s s' o :
+  cs_halted s = false -> cs_height s = h -> cs_round s = r -> step_rank (cs_step s) < 4 ->
+  enter_prevote E h r s = (s', o) ->
+  cs_step s' = SPrevote /\ settled_at r s'.
+Proof.
+  intros Hh H1 H2 H3 Eq. rewrite enter_prevote_eq in Eq by assumption. injection Eq as <- <-.
+  split; [autorewrite with cs; reflexivity|].
+  pose proof (unlock_known_settled r s) as S. unfold settled_at in *. autorewrite with cs in *. exact S.
 Qed.
 
 End Progress.
